@@ -3,6 +3,7 @@ package redisemu
 import (
 	byteUtils "bytes"
 	"encoding/binary"
+	"encoding/gob"
 	"fmt"
 	"math"
 	"math/bits"
@@ -871,6 +872,23 @@ func (dsc *dataStoreCommand) dump(keyName string) (output respValue) {
 	beLen := make([]byte, 4)
 
 	strBytes := sk.getStringBytes()
+	if strBytes == nil {
+		// a list, hash or set: its elements, encoded the way the snapshot writer stores them
+		var body byteUtils.Buffer
+		enc := gob.NewEncoder(&body)
+		if list := sk.getList(); list != nil {
+			elements := make([][]byte, 0, list.count)
+			for p := list.head; p != nil; p = p.next {
+				elements = append(elements, p.element)
+			}
+			enc.Encode(elements)
+		} else if table := sk.getHashTable(); table != nil {
+			enc.Encode(table.toStringTable())
+		} else if set := sk.getSet(); set != nil {
+			enc.Encode(set.toKeyTable())
+		}
+		strBytes = body.Bytes()
+	}
 	if strBytes != nil {
 		binary.BigEndian.PutUint32(beLen, uint32(len(strBytes))+1)
 	}
@@ -925,15 +943,60 @@ func (dsc *dataStoreCommand) restore(keyName, serializedData string, ttl int64, 
 	}
 
 	len := binary.BigEndian.Uint32(content[2:6])
-	var serialBytes []byte
+	serialBytes := []byte{}
 	if len > 0 {
+		if 6+int(len)-1 > cap(content) || 6+int(len)-1 < 6 {
+			output.data = respErrorString("ERR Bad data format")
+			return
+		}
 		serialBytes = content[6 : 6+len-1]
 	}
 
+	// rebuild the value by its type (the snapshot loader does the same)
+	flags := bitflags(content[1])
+	var payload any
+	var decodeErr error
+	dec := gob.NewDecoder(byteUtils.NewReader(serialBytes))
+	if flagHasOne(flags, FLAG_KEY_TYPE_STRING) {
+		payload = serialBytes
+	} else if flagHasOne(flags, FLAG_KEY_TYPE_LIST) {
+		var elements [][]byte
+		if decodeErr = dec.Decode(&elements); decodeErr == nil {
+			list := &storeList{}
+			for _, element := range elements {
+				item := &listItem{prev: list.tail, element: element}
+				if list.head == nil {
+					list.head = item
+				} else {
+					list.tail.next = item
+				}
+				list.tail = item
+				list.count++
+			}
+			payload = list
+		}
+	} else if flagHasOne(flags, FLAG_KEY_TYPE_HASH_TABLE) {
+		var table map[string]string
+		if decodeErr = dec.Decode(&table); decodeErr == nil {
+			payload = newRedisDictFromStringTable(table)
+		}
+	} else if flagHasOne(flags, FLAG_KEY_TYPE_SET) {
+		var table map[string]struct{}
+		if decodeErr = dec.Decode(&table); decodeErr == nil {
+			payload = newRedisDictFromKeyTable(table)
+		}
+	} else {
+		decodeErr = fmt.Errorf("unknown value type")
+	}
+	if decodeErr != nil {
+		output.data = respErrorString("ERR Bad data format")
+		return
+	}
+
 	newSk := dsc.ds.newStoreKeyUnlocked(keyName)
-	newSk.flags = bitflags(content[1])
+	newSk.flags = flags
 	newSk.expiresAt = expiration
-	newSk.payload = serialBytes
+	newSk.payload = payload
 
 	output.data = rstrOK
 	return
